@@ -147,6 +147,14 @@ func (db *DB) Snapshot(name string) [][]Value {
 	return out
 }
 
+// InsertRow appends a row directly (data placed by "somebody else", e.g. poison records planted in the database).
+func (db *DB) InsertRow(table string, row []Value) {
+	db.mu.Lock()
+	defer db.mu.Unlock()
+	t := db.Tables[table]
+	t.Rows = append(t.Rows, append([]Value{}, row...))
+}
+
 // TamperAll applies f to every stored value of a column (used to model a hostile/buggy database).
 func (db *DB) TamperAll(table, col string, f func(row int, v Value) Value) {
 	db.mu.Lock()
